@@ -236,10 +236,10 @@ class PythonExpr(TalesExpr):
 
     def translate(self, expression, target):
         # Strip spaces
-        string = expression.strip()
+        stripped = expression.strip()
 
         # Convert line continuations to newlines
-        string = substitute(re_continuation, '\n', string)
+        string = substitute(re_continuation, '\n', stripped)
 
         # Convert newlines to spaces
         string = string.replace('\n', ' ')
@@ -247,7 +247,8 @@ class PythonExpr(TalesExpr):
         try:
             value = self.parse(string)
         except SyntaxError as exc:
-            raise ExpressionError(exc.msg, string)
+            # (report the expression as it is written)
+            raise ExpressionError(exc.msg, stripped)
 
         # Transform attribute lookups to allow fallback to item lookup
         result = self.transform.visit(value)
